@@ -15,8 +15,9 @@ import os
 from fractions import Fraction
 
 from sa import AnalysisError
+from sa.pattern import pmatch, pfind
 from sa.boolnf import equivalent
-from sa.astutil import dotted, src, stmt_text, params, find_stmts, calls_in, method_name, walk_no_nested, const, deep_resolved, if_branches
+from sa.astutil import dotted, src, stmt_text, params, find_stmts, calls_in, method_name, walk_no_nested, const, deep_resolved, if_branches, resolved_return
 from sa.algebra import Poly, translate, Unsupported
 from sa.einsum import canon
 
@@ -338,7 +339,20 @@ def check_linear(model, rep):
         rep.ob('R04.4', f.key, f.where(), not problems, f'd {cname} = {callee}(d operand) at the operation\'s own axis' if not problems else f'{cname}._derivative: {problems[0]}', statement='linear-rule')
     # a few fixed-shape ones
     t = model.cls('evaluable:Transpose').members['_derivative'].func
-    ok = src(find_stmts(t.body, lambda s: isinstance(s, ast.Return))[-1].value).replace(' ', '') == 'transpose(derivative(self.func,var,seen),self.axes+tuple(range(self.ndim,self.ndim+var.ndim)))'
+    def segments(e):
+        # a sequence written as a concatenation / star-unpacking, as the list of its parts
+        if isinstance(e, ast.BinOp) and isinstance(e.op, ast.Add):
+            return segments(e.left) + segments(e.right)
+        if isinstance(e, (ast.Tuple, ast.List)):
+            out = []
+            for x in e.elts:
+                out += segments(x.value) if isinstance(x, ast.Starred) else [('item', src(x))]
+            return out
+        if isinstance(e, ast.Call) and src(e.func) in ('tuple', 'list') and len(e.args) == 1:
+            return segments(e.args[0])
+        return [src(e).replace(' ', '')]
+    m = pmatch('transpose(derivative(self.func, var, seen), P_)', resolved_return(t.node))
+    ok = m is not None and segments(m['P_']) in (['self.axes', 'range(self.ndim,self.ndim+var.ndim)'], ['self.axes', 'range(self.ndim,var.ndim+self.ndim)'])
     rep.ob('R04.4', t.key, t.where(), ok, 'the derivative axes stay behind the transposed ones' if ok else 'Transpose._derivative no longer appends the identity permutation of the derivative axes', statement='transpose-rule')
     a = model.cls('evaluable:Add').members['_derivative'].func
     ok = 'add(*[derivative(f, var, seen) for f in self._terms])' in src(a.node)
